@@ -186,16 +186,26 @@ impl Router {
                                 self.handlers.insert(new_receiver_id, handler);
                             },
                             RouterMsg::Shutdown(sender) => {
+                                // Drop the callbacks, and whatever they own,
+                                // before confirming that we have stopped.
+                                self.handlers.clear();
                                 sender
                                     .send(())
                                     .expect("Failed to send comfirmation of shutdown.");
-                                break;
+                                // Leave `run()` altogether, not just the loop over this batch.
+                                return;
                             },
                         }
                     },
                     // Event from one of our registered receivers, call callback.
                     IpcSelectionResult::MessageReceived(id, message) => {
                         self.handlers.get_mut(&id).unwrap()(message)
+                    },
+                    // The proxy has been dropped: nothing can be added or shut down any more.
+                    // (There is no handler registered under this id.)
+                    IpcSelectionResult::ChannelClosed(id) if id == self.msg_wakeup_id => {
+                        self.handlers.clear();
+                        return;
                     },
                     IpcSelectionResult::ChannelClosed(id) => {
                         let _ = self.handlers.remove(&id).unwrap();
